@@ -114,6 +114,7 @@ type Exec struct {
 	MaxPaths   int
 	MaxBranch  int // decisions per path (unwinding bound)
 	MaxSummary int
+	LocalPruneDepth int
 	SplitFirstMs, SplitLeafMs, MaxSplitLeaves int
 
 	// results
@@ -125,7 +126,7 @@ type Exec struct {
 	FnSeen       map[string]int
 	Reached      map[string]int
 	Unsupp       []string
-	Stats        struct{ Branches, FeasQueries, Summaries, SummaryAborts, MergedPaths, SplitLeaves, FeasCacheHits int }
+	Stats        struct{ Branches, FeasQueries, Summaries, SummaryAborts, MergedPaths, SplitLeaves, FeasCacheHits, BatchedQueries int }
 	pathEvents   []string
 
 	// scheduler
@@ -138,6 +139,9 @@ type Exec struct {
 	track *writeTracker
 
 	symbolicSeen bool
+	stubs        map[string]value
+	inStub       map[string]bool
+	pending      []pendingOb
 	ios          *ioState
 	feasCache    map[[20]byte]bool
 	InitSecs     float64
@@ -160,7 +164,7 @@ type localCtx struct {
 func NewExec(i *interpreter, solver *smt.Portfolio) *Exec {
 	ex := &Exec{I: i, Solver: solver,
 		Prune: true, Merge: true, QuickMs: 3000, FullMs: 20000, FeasMs: 1500,
-		MaxPaths: 20000, MaxBranch: 4000, MaxSummary: 512, SplitFirstMs: 0, SplitLeafMs: 4000, MaxSplitLeaves: 600,
+		MaxPaths: 20000, MaxBranch: 4000, MaxSummary: 512, LocalPruneDepth: 6, SplitFirstMs: 0, SplitLeafMs: 4000, MaxSplitLeaves: 600,
 		DomainEvents: map[string]int{}, Notes: map[string][]string{}, FnSeen: map[string]int{},
 		Reached: map[string]int{}, Cases: map[string]int64{}, feasCache: map[[20]byte]bool{}}
 	return ex
@@ -184,6 +188,9 @@ func (ex *Exec) newPath() {
 	ex.Prune, ex.Merge = true, true
 	ex.track = nil
 	ex.ios = nil
+	ex.stubs = map[string]value{}
+	ex.inStub = map[string]bool{}
+	ex.pending = nil
 	ex.sched.reset(ex)
 }
 
@@ -407,7 +414,9 @@ func (ex *Exec) branch(cond *smt.Term) bool {
 	}
 	ex.Stats.Branches++
 	d := decision{b: true, hasAlt: true}
-	if ex.Prune {
+	// inside a merged callee dead paths only add unreachable ite branches:
+	// prune there only once the local path is deep (loops)
+	if ex.Prune && (len(ex.loc) == 0 || len(ds.d) >= ex.LocalPruneDepth) {
 		if !ex.feasible(cond) {
 			d.b, d.hasAlt = false, false
 		} else if !ex.feasible(ex.C.Not(cond)) {
@@ -892,19 +901,93 @@ func (ex *Exec) check(kind, msg, pos string, cond *smt.Term) *Obligation {
 }
 
 // Assert: obligation pc ⇒ cond; afterwards cond is assumed so that later
-// obligations on the path are independent.
+// obligations on the path are independent. Obligations are batched: the
+// pending ones are discharged together by one query at the next flush point
+// (vacuity witness, path end, batch limit); only when that query is not unsat
+// are they decided one by one.
+type pendingOb struct {
+	pcLen int
+	cond  *smt.Term
+	ob    Obligation
+}
+
 func (ex *Exec) Assert(cond *smt.Term, msg, pos string) {
 	ex.impure("assert")
-	ex.check("assert", msg, pos, cond)
+	ob := Obligation{Harness: ex.Harness, Case: ex.Case, Kind: "assert", Msg: msg, Pos: pos, Path: ex.Paths}
+	if cond.IsTrue() {
+		ob.Status = "trivial"
+		ex.Obls = append(ex.Obls, ob)
+		return
+	}
+	ex.pending = append(ex.pending, pendingOb{len(ex.pc), cond, ob})
 	if cond.IsFalse() {
+		ex.flush()
 		panic(pathEnd{reason: "violation"})
 	}
 	ex.assume(cond, true)
+	if len(ex.pending) >= 48 {
+		ex.flush()
+	}
+}
+
+// flush discharges the pending obligations.
+func (ex *Exec) flush() {
+	if len(ex.pending) == 0 {
+		return
+	}
+	pend := ex.pending
+	ex.pending = nil
+	savePc := ex.pc
+	defer func() { ex.pc = savePc }()
+	if len(pend) > 1 {
+		// one query: prefix_1 ∧ (¬c1 ∨ (rest_1 ∧ (¬c2 ∨ ...)))  (every c_i is part of the later prefixes)
+		var build func(i int) *smt.Term
+		build = func(i int) *smt.Term {
+			lo := pend[0].pcLen
+			if i > 0 {
+				lo = pend[i-1].pcLen
+			}
+			seg := ex.C.And(savePc[lo:pend[i].pcLen]...)
+			alt := ex.C.Not(pend[i].cond)
+			if i+1 < len(pend) {
+				alt = ex.C.Or(alt, build(i+1))
+			}
+			return ex.C.And(seg, alt)
+		}
+		ex.pc = savePc[:pend[0].pcLen]
+		r := ex.query(build(0), false, ex.QuickMs, 0)
+		if r.Status == "unsat" {
+			for i := range pend {
+				ob := pend[i].ob
+				ob.Status, ob.Solver = "unsat", r.Solver+" (batch of "+fmt.Sprint(len(pend))+")"
+				ob.Secs = r.Secs / float64(len(pend))
+				ex.Obls = append(ex.Obls, ob)
+			}
+			ex.Stats.BatchedQueries++
+			return
+		}
+	}
+	for i := range pend {
+		ex.pc = savePc[:pend[i].pcLen]
+		ob := pend[i].ob
+		neg := ex.C.Not(pend[i].cond)
+		r := ex.querySplit(neg, true)
+		ob.Status, ob.Solver, ob.Secs, ob.Err = r.Status, r.Solver, r.Secs, r.Err
+		ob.Nodes = smt.Size(append(append([]*smt.Term{neg}, ex.pc...), ex.defs...)...)
+		if r.Status == "sat" {
+			ob.Model, ob.ModelX = ex.modelOf(r)
+			for k, v := range ex.Cases {
+				ob.Model["case:"+k] = float64(v)
+			}
+		}
+		ex.Obls = append(ex.Obls, ob)
+	}
 }
 
 // Reach: vacuity witness; pc must be satisfiable here.
 func (ex *Exec) Reach(tag, pos string) {
 	ex.impure("reach")
+	ex.flush()
 	ob := Obligation{Harness: ex.Harness, Case: ex.Case, Kind: "reach", Msg: tag, Pos: pos, Path: ex.Paths}
 	r := ex.query(nil, false, ex.QuickMs, ex.FullMs)
 	ob.Status, ob.Solver, ob.Secs, ob.Err = r.Status, r.Solver, r.Secs, r.Err
@@ -968,6 +1051,15 @@ func (ex *Exec) runPath(fn *ssa.Function) (stop bool) {
 	defer ex.sched.killAll()
 	defer func() {
 		r := recover()
+		func() {
+			// pending obligations of this path are decided whatever ended it
+			defer func() {
+				if r2 := recover(); r2 != nil && r == nil {
+					r = r2
+				}
+			}()
+			ex.flush()
+		}()
 		if r == nil {
 			return
 		}
